@@ -588,6 +588,37 @@ def run_case(c):
             bad('table-exception', 'PressureDropTable.generate: %s: %s' % (type(e).__name__, str(e)[:200]),
                 site=site_of(e))
 
+        # -- the same march through the other entry of Assembly.calculate: plane positions handed in ------------
+        # (stand-alone drivers pass z = the upper plane of the step; the Reactor lets the assembly count).  The same
+        # planes, the same steps: the same parts of the pressure drop.
+        if c.get('explicit_z', True) and not V:
+            try:
+                rx2 = _reactor(b)
+                a2 = rx2.assemblies[0]
+                z2, dz2 = np.asarray(rx2.z, dtype=float), np.asarray(rx2.dz, dtype=float)
+                gt = np.ones(a2.duct_outer_surf_temp.shape[0])
+                for j in range(1, len(z2)):
+                    gt = np.ones(a2.duct_outer_surf_temp.shape[0])
+                    a2.calculate(float(dz2[j - 1]), gt, gt, z=float(z2[j]), adiabatic=True)
+                    if j + 1 < len(z2) and a2.check_region_update(z2[j + 1]):
+                        a2.update_region(z2[j + 1], rx2.core.adjacent_coolant_gap_temp(0),
+                                         rx2.core.adjacent_coolant_gap_htc(0), True)
+                r['traces'] += 1
+                r['transitions'] += len(z2) - 1
+                parts2 = [dict((k, float(v)) for k, v in g._pressure_drop.items()) for g in a2.region]
+                for nm, mine in (('friction', sum(fr)), ('spacer_grid', sum(sg)), ('gravity', sum(gr))):
+                    oth = sum(p_.get(nm, 0.0) for p_ in parts2)
+                    if rel(oth, mine, max(total, 1e-300)) > TOL:
+                        bad('explicit-z-differs', '%s pressure drop of the march with plane positions handed to '
+                            'Assembly.calculate(z=...) differs from that of the Reactor\'s own march over the same planes'
+                            % nm, oth, mine, TOL * total, site='assembly.py:calculate')
+                        break
+            except Rejected:
+                pass
+            except Exception as e:      # noqa
+                bad('explicit-z-exception', 'march with explicit plane positions: %s: %s'
+                    % (type(e).__name__, str(e)[:200]), site=site_of(e))
+
         base = dict(c)
         del base['step_case']
         r['key'] = canon(dict(base, dz_used=used))
